@@ -757,3 +757,214 @@ theorem matchV_complete_nodots (sc : Schema) (mt : Meta) (σ : Subst) (hσ : Goo
   exact ⟨d', (mem_toList_iff _ _).1 hm, hc'⟩
 
 end Gopatch
+
+namespace Gopatch
+
+/-! ### every binding is well-typed code: the reference matcher decides exactly "is an instance" -/
+
+def AllGood (sc : Schema) (d : Data) : Prop := ∀ n v, d.lookMv n = some v → GoodV sc v
+
+theorem AllGood.of_mv_eq {sc : Schema} {d d' : Data} (h : d'.mv = d.mv) (hc : AllGood sc d) : AllGood sc d' := by
+  intro n v hv
+  apply hc n v
+  simpa [Data.lookMv, h] using hv
+
+theorem matchMetavar_good (sc : Schema) (k : Kind) (name : String) (g : V) (d d' : Data)
+    (h : matchMetavar k name g d = some d') (wg : wtv sc g = true) (ng : nf g = true) (hc : AllGood sc d) : AllGood sc d' := by
+  unfold matchMetavar at h
+  split at h
+  · cases h
+  · rename_i hcond
+    simp only [Bool.or_eq_true, Bool.not_eq_true', not_or, Bool.not_eq_false, Bool.not_eq_true] at hcond
+    split at h
+    · split at h <;> cases h; exact hc
+    · cases h
+      intro n v hnv
+      simp only [Data.lookMv, Data.pushMv, List.lookup_cons] at hnv
+      by_cases hne : n = name
+      · subst hne
+        simp at hnv; subst hnv
+        exact ⟨kind_dynOK k g hcond.1 hcond.2, wg, ng⟩
+      · have : (n == name) = false := by simpa using hne
+        simp only [this] at hnv
+        exact hc n v hnv
+
+mutual
+theorem allV_good (sc : Schema) (mt : Meta) : ∀ (p g : V) (d d' : Data), d' ∈ allV mt p g d →
+    wtv sc g = true → nf g = true → AllGood sc d → AllGood sc d'
+  | .pos pv pk, g, d, d', h, _, _, hc => by
+      rw [allV.eq_def] at h; exact hc.of_mv_eq (matchV_leaf_mv mt _ g d d' rfl ((mem_toList_iff _ _).1 h))
+  | .str s, g, d, d', h, _, _, hc => by
+      rw [allV.eq_def] at h; exact hc.of_mv_eq (matchV_leaf_mv mt _ g d d' rfl ((mem_toList_iff _ _).1 h))
+  | .int n, g, d, d', h, _, _, hc => by
+      rw [allV.eq_def] at h; exact hc.of_mv_eq (matchV_leaf_mv mt _ g d d' rfl ((mem_toList_iff _ _).1 h))
+  | .bool b, g, d, d', h, _, _, hc => by
+      rw [allV.eq_def] at h; exact hc.of_mv_eq (matchV_leaf_mv mt _ g d d' rfl ((mem_toList_iff _ _).1 h))
+  | .nilP t, g, d, d', h, _, _, hc => by
+      rw [allV.eq_def] at h; exact hc.of_mv_eq (matchV_leaf_mv mt _ g d d' rfl ((mem_toList_iff _ _).1 h))
+  | .nilI i, g, d, d', h, _, _, hc => by
+      rw [allV.eq_def] at h; exact hc.of_mv_eq (matchV_leaf_mv mt _ g d d' rfl ((mem_toList_iff _ _).1 h))
+  | .nilS e, g, d, d', h, _, _, hc => by
+      rw [allV.eq_def] at h; exact hc.of_mv_eq (matchV_leaf_mv mt _ g d d' rfl ((mem_toList_iff _ _).1 h))
+  | .iface i pv, g, d, d', h, wg, ng, hc => by
+      rw [allV.eq_def] at h
+      cases g <;> simp only at h <;> try (simp at h)
+      rename_i j gv
+      rw [wtv.eq_def] at wg; simp only [Bool.and_eq_true] at wg
+      rw [nf.eq_def] at ng; simp only at ng
+      exact allV_good sc mt pv gv d d' h wg.2 ng hc
+  | .slice e ps, g, d, d', h, wg, ng, hc => by
+      rw [allV.eq_def] at h
+      simp only at h
+      split at h
+      · cases g <;> simp only at h <;> try (simp at h)
+        · exact allSeq_good sc mt e ps [] d d' h rfl rfl hc
+        · rename_i e' gs
+          rw [wtv.eq_def] at wg; simp only [Bool.and_eq_true] at wg
+          rw [nf.eq_def] at ng; simp only [Bool.and_eq_true] at ng
+          exact allSeq_good sc mt e ps gs d d' h wg.2 ng.2 hc
+      · cases g <;> simp only at h <;> try (simp at h)
+        · obtain ⟨_, hd⟩ := h; subst hd; exact hc
+        · rename_i e' gs
+          rw [wtv.eq_def] at wg; simp only [Bool.and_eq_true] at wg
+          rw [nf.eq_def] at ng; simp only [Bool.and_eq_true] at ng
+          exact allVs_good sc mt ps gs d d' h wg.2 ng.2 hc
+  | .ptr t id fs, g, d, d', h, wg, ng, hc => by
+      rw [allV.eq_def] at h
+      simp only at h
+      by_cases hig : ignoredPtr t = true
+      · simp only [hig, ↓reduceIte] at h
+        have hd : d' = d := by simpa using h
+        subst hd; exact hc
+      · simp only [hig, Bool.false_eq_true, ↓reduceIte] at h
+        -- the fields of a matching node of the same type are well-typed and normal
+        have fields_ok : ∀ (id' : Nat) (gs : List V), g = .ptr t id' gs → wtvs sc gs = true ∧ nfs gs = true := by
+          intro id' gs hg
+          subst hg
+          rw [wtv.eq_def] at wg; simp only [hig, Bool.false_eq_true, Bool.false_or] at wg
+          rw [nf.eq_def] at ng; simp only [hig, Bool.false_eq_true, Bool.false_or] at ng
+          cases hs : sc.fields t with
+          | none => simp [hs] at wg
+          | some tags =>
+            simp only [hs, Bool.and_eq_true] at wg
+            exact ⟨wg.2, ng⟩
+        by_cases hid : (t == "ast.Ident") = true
+        · simp only [hid, ↓reduceIte] at h
+          cases hk : mt.look (identName fs) with
+          | some k =>
+            simp only [hk] at h
+            exact matchMetavar_good sc k _ g d d' ((mem_toList_iff _ _).1 h) wg ng hc
+          | none =>
+            simp only [hk] at h
+            cases g <;> simp only at h <;> try (simp at h)
+            rename_i t' id' gs
+            obtain ⟨ht'', h⟩ := h
+            subst ht''
+            obtain ⟨w, n⟩ := fields_ok id' gs rfl
+            exact allVs_good sc mt fs gs d d' h w n hc
+        · simp only [hid, Bool.false_eq_true, ↓reduceIte] at h
+          cases hk : forDotsKeyOf t fs with
+          | some k =>
+            simp only [hk] at h
+            cases g <;> simp only at h <;> try (simp at h)
+            rename_i t' id' gs
+            cases hbi : bodyIdxOf t' with
+            | none => simp [hbi] at h
+            | some bi =>
+              simp only [hbi] at h
+              cases hgb : gs[bi]? with
+              | none => simp [hgb] at h
+              | some gb =>
+                simp only [hgb] at h
+                have hig' := bodyIdx_not_ignored t' bi hbi
+                rw [wtv.eq_def] at wg; simp only [hig', Bool.false_or] at wg
+                rw [nf.eq_def] at ng; simp only [hig', Bool.false_or] at ng
+                cases hs : sc.fields t' with
+                | none => simp [hs] at wg
+                | some tags =>
+                  simp only [hs, Bool.and_eq_true] at wg
+                  exact allNth_good sc mt fs 4 gb _ d' h (wtvs_get sc gs bi gb wg.2 hgb) (nfs_get gs bi gb ng hgb) (hc.of_mv_eq rfl)
+          | none =>
+            simp only [hk] at h
+            cases g <;> simp only at h <;> try (simp at h)
+            rename_i t' id' gs
+            obtain ⟨ht'', h⟩ := h
+            subst ht''
+            obtain ⟨w, n⟩ := fields_ok id' gs rfl
+            exact allVs_good sc mt fs gs d d' h w n hc
+theorem allVs_good (sc : Schema) (mt : Meta) : ∀ (ps gs : List V) (d d' : Data), d' ∈ allVs mt ps gs d →
+    wtvs sc gs = true → nfs gs = true → AllGood sc d → AllGood sc d'
+  | [], [], d, d', h, _, _, hc => by
+      rw [allVs.eq_def] at h; simp only [List.mem_singleton] at h; subst h; exact hc
+  | [], _ :: _, d, d', h, _, _, _ => by rw [allVs.eq_def] at h; simp at h
+  | _ :: _, [], d, d', h, _, _, _ => by rw [allVs.eq_def] at h; simp at h
+  | p :: ps, g :: gs, d, d', h, wg, ng, hc => by
+      rw [allVs.eq_def] at h
+      simp only [List.mem_flatMap] at h
+      obtain ⟨d1, h1, h2⟩ := h
+      simp only [wtvs, Bool.and_eq_true] at wg
+      simp only [nfs, Bool.and_eq_true] at ng
+      exact allVs_good sc mt ps gs d1 d' h2 wg.2 ng.2 (allV_good sc mt p g d d1 h1 wg.1 ng.1 hc)
+theorem allSeq_good (sc : Schema) (mt : Meta) (e : String) : ∀ (ps gs : List V) (d d' : Data), d' ∈ allSeq mt e ps gs d →
+    wtvs sc gs = true → nfs gs = true → AllGood sc d → AllGood sc d'
+  | [], gs, d, d', h, _, _, hc => by
+      rw [allSeq.eq_def] at h
+      simp only at h
+      cases gs with
+      | nil => simp at h; subst h; exact hc
+      | cons g gs => simp at h
+  | p :: ps, gs, d, d', h, wg, ng, hc => by
+      rw [allSeq.eq_def] at h
+      simp only at h
+      split at h
+      · rename_i k hk
+        simp only [List.mem_flatMap] at h
+        obtain ⟨a, ha, hb⟩ := h
+        have hcat := splits_cat gs a.1 a.2 ha
+        rw [← hcat] at wg ng
+        exact allSeq_good sc mt e ps a.2 _ d' hb (wtvs_append_right sc a.1 a.2 wg) (nfs_append_right a.1 a.2 ng) (hc.of_mv_eq rfl)
+      · cases gs with
+        | nil => simp at h
+        | cons g gs' =>
+          simp only [List.mem_flatMap] at h
+          obtain ⟨d1, h1, h2⟩ := h
+          simp only [wtvs, Bool.and_eq_true] at wg
+          simp only [nfs, Bool.and_eq_true] at ng
+          exact allSeq_good sc mt e ps gs' d1 d' h2 wg.2 ng.2 (allV_good sc mt p g d d1 h1 wg.1 ng.1 hc)
+theorem allNth_good (sc : Schema) (mt : Meta) : ∀ (ps : List V) (i : Nat) (g : V) (d d' : Data), d' ∈ allNth mt ps i g d →
+    wtv sc g = true → nf g = true → AllGood sc d → AllGood sc d'
+  | [], _, _, _, _, h, _, _, _ => by rw [allNth.eq_def] at h; simp at h
+  | p :: ps, 0, g, d, d', h, wg, ng, hc => by
+      rw [allNth.eq_def] at h; simp only at h
+      exact allV_good sc mt p g d d' h wg ng hc
+  | p :: ps, i + 1, g, d, d', h, wg, ng, hc => by
+      rw [allNth.eq_def] at h; simp only at h
+      exact allNth_good sc mt ps i g d d' h wg ng hc
+end
+
+/-- **The reference matcher decides "is a syntactic instance"**: on a well-typed tree in parser normal form it has
+a result exactly when some substitution of well-typed code for the metavariables (and some run for every elision)
+makes the code an instance of the pattern. -/
+theorem isInstance_iff (sc : Schema) (mt : Meta) (p g : V) (wg : wtv sc g = true) (ng : nf g = true) :
+    isInstance mt p g Data.empty = true ↔ ∃ σ, GoodSubst sc σ ∧ Inst mt σ p g := by
+  have hempty : ∀ n v, (Data.empty).lookMv n = some v → False := by
+    intro n v h; simp [Data.lookMv, Data.empty] at h
+  constructor
+  · intro h
+    unfold isInstance at h
+    cases hl : allV mt p g Data.empty with
+    | nil => simp [hl] at h
+    | cons d' rest =>
+      have hm : d' ∈ allV mt p g Data.empty := by rw [hl]; simp
+      have hg := allV_good sc mt p g Data.empty d' hm wg ng (fun n v hv => (hempty n v hv).elim)
+      refine ⟨d'.mv, ?_, (allV_sound mt p g Data.empty d' hm).2 d'.mv (fun _ _ hc => hc)⟩
+      intro n c hc
+      exact hg n c hc
+  · rintro ⟨σ, hσ, hi⟩
+    obtain ⟨d', hm, _⟩ := allV_complete sc mt σ hσ p g hi wg ng Data.empty (fun n v hv => (hempty n v hv).elim)
+    unfold isInstance
+    cases hl : allV mt p g Data.empty with
+    | nil => rw [hl] at hm; simp at hm
+    | cons _ _ => rfl
+
+end Gopatch
